@@ -101,6 +101,8 @@ fn exec(events: &[Value]) -> Vec<Value> {
                 }
                 svc = Some(s);
                 inbound0 = stat::inbound_node().current_concurrency() as i64;
+                // virtual clock, far from the previous history
+                sentinel_core::verif::clock::set_ms(1_700_300_000_000 + hid * 7_200_000);
                 ev["ok"] = json!(true);
             }
             "req" => {
@@ -162,6 +164,9 @@ fn exec(events: &[Value]) -> Vec<Value> {
                 ev["called"] = json!(calls.load(Ordering::SeqCst) - c0);
                 ev["conc"] = json!(conc(&res));
                 ev["inb"] = json!(stat::inbound_node().current_concurrency() as i64 - inbound0);
+            }
+            "adv" => {
+                sentinel_core::verif::clock::advance_ms(ev["ms"].as_u64().unwrap());
             }
             "resume" => {
                 match pending.pop_front() {
@@ -228,6 +233,10 @@ fn main() {
                             held += 1; // (a rejected one is not held; a surplus resume is then a no-op the spec rejects, so count exactly below)
                         }
                         1 if held > 0 => {
+                            if rng.gen_bool(0.3) {
+                                let ms = [250u64, 60_000, 60_001, 120_000][rng.gen_range(0..4)];
+                                evs.push(json!({"e": "adv", "ms": ms}));
+                            }
                             evs.push(json!({"e": "resume"}));
                             held -= 1;
                         }
